@@ -133,6 +133,8 @@ def h_state(params, env=None):
             except AssertionError as ex:
                 # the state refuses the operation by assertion: a rejected call must still leave the indexes coherent
                 hist[-1] = hist[-1] + ("rejected",)
+            except RecursionError:
+                return {"ok": False, "info": {"why": "RecursionError inside a state operation", "hist": hist}}
             why = invariants(st)
             if why:
                 return {"ok": False, "info": {"why": why, "hist": hist}}
@@ -222,7 +224,11 @@ def h_state2(params, env=None):
                         en.ignore(IgnoreReason.CONFLICT)
                     elif what == "path":
                         if en[side].oid is not None and not (lp and side == 0):
-                            en[side].path = names[e.choose("newpath", len(names))]
+                            np_ = names[e.choose("newpath", len(names))]
+                            if en[side].otype == DIRECTORY and en[side].path and np_.startswith(en[side].path + "/"):
+                                hist[-1] = hist[-1] + ("skipped: folder moved into itself",)      # outside the claim (no provider can emit it; the real code recurses without bound)
+                                continue
+                            en[side].path = np_
                     elif what == "oid":
                         pool = (loids if side == 0 else roids)
                         en[side].oid = ([None] + pool)[e.choose("newoid", len(pool) + 1)]
@@ -260,6 +266,8 @@ def h_state2(params, env=None):
                 continue
             except AssertionError:
                 hist[-1] = hist[-1] + ("rejected",)
+            except RecursionError:
+                return {"ok": False, "info": {"why": "RecursionError inside a state operation", "hist": hist}}
             why = invariants(st)
             if why:
                 return {"ok": False, "info": {"why": why, "hist": hist}}
@@ -353,7 +361,20 @@ def _sig(harness, params, info, exc=None):
         if isinstance(h, (list, tuple)):
             last = h[0] if harness.startswith("state") else h[1]
             break
-    return {"harness": harness.split("~")[0], "why": re.sub(r"'[^']*'", "_", why)[:80], "last": last, "flavour": params.get("flavour", "path" if params.get("oid_is_path") else "oid")}
+    sd = {"harness": harness.split("~")[0], "why": re.sub(r"'[^']*'", "_", why)[:80], "last": last, "flavour": params.get("flavour", "path" if params.get("oid_is_path") else "oid")}
+    if harness.startswith("state"):
+        # the shape of the operation sequence (kinds only): what a recorded finding on raw state operations is identified by
+        shape = []
+        for h in hist:
+            if isinstance(h, (list, tuple)) and h:
+                if h[0] == "event":
+                    shape.append("event:%s:%s" % (h[2], "exists" if h[5] else ("gone" if h[5] is False else "unknown")))
+                elif h[0] == "assign":
+                    shape.append("assign:%s" % (h[3],))
+                else:
+                    shape.append(str(h[0]))
+        sd["shape"] = shape
+    return sd
 
 
 def replay(harness, params, model):
